@@ -96,6 +96,40 @@ CLAIMED = {
             "the operand; detach/to/cpu/cuda map each core in order through the like-named torch method.",
             "does not decide torch.save/torch.load bit-identity itself nor device transfers",
             "DESIGN.md section 4 C19"),
+    "C10": ("cursor-drain rule on the merge/split loop of reshape (roles of the two cursors derived from the code), "
+            "truncation-allowance normal forms for permute/reshape, gauge rule (orthogonalise first, fresh rank list), "
+            "effect analysis for operand intactness",
+            "Clause level: decides the structural necessary conditions of reshape/permute: every exit of reshape's "
+            "merge/split loop drains the other cursor (leftover singleton cores are contracted into the last core, "
+            "leftover unit targets appended, tensors and operators alike); permute's per-swap allowance has exponent of d "
+            "<= -1 and carries the caller's eps; reshape's split allowance is eps/sqrt(dfin-1); both orthogonalise the "
+            "operand first and never write it.",
+            "does not decide the eps bound in floating point, rank optimality, nor the element order of torch.reshape; "
+            "to_qtt/qtt_to_tens only through the discipline rules",
+            "DESIGN.md section 4 C10"),
+    "C11": ("empty-reduction rule (reductions over lists of symbolic length d-1 dominated by a d = 1 guard), definite "
+            "assignment, result-shape provenance rule, effect analysis of the initial guess, E5 wrapper scenarios with "
+            "compatibility postconditions",
+            "Clause level: decides only that every order d >= 1 reaches a result in the DMRG/AMEn product routines, that the "
+            "result's mode sizes are taken from the operator's row modes (resp. first factor), that the kind/shape guards "
+            "precede the solver call, and that the initial guess is never written.",
+            "the eps accuracy, convergence of randomised sweeps and seed independence are runtime quantities and NOT decided",
+            "DESIGN.md section 4 C11"),
+    "C14": ("symbolic shape rule for the rank-enrichment (kick) bookkeeping at the four QR sites of dmrg_cross / "
+            "function_interpolate, effect analysis of the start tensor, name resolution",
+            "Clause level: decides only the enrichment shape obligation r + radd = columns of the R factor for every mode "
+            "size (including mode sizes below rank + kick) and that the user's start tensor is copied, not written.",
+            "recovery accuracy, maxvol quality, seed independence and index provenance (every sampled index column in "
+            "[0, N[k])) are NOT decided",
+            "DESIGN.md section 4 C14"),
+    "C15": ("graph-cut rule over the call-graph closure of the differentiable operations (no .numpy/.item/.detach/.data/"
+            "no_grad/re-wrap of tensor data), leaf-write rule via effect analysis, norm branch rule, grad collection rule",
+            "Decides the 'connected to the leaves by differentiable operations only' half of gradient correctness for every "
+            "differentiable operation of the property; together with the forward-value checks (C03/C04/C07/C08/C09/C20) "
+            "autograd's chain rule gives the dense derivative. grad.grad / grad_list return c.grad of exactly the watched "
+            "cores in order; norm uses the differentiable Gram chain whenever any core is tracked.",
+            "assumes autograd's chain rule for torch primitives; numerical agreement with finite differences not decided",
+            "DESIGN.md section 4 C15"),
 }
 
 NOT_APPLICABLE = {
